@@ -34,7 +34,7 @@ Theorem C02_parse_spec : forall txt : text, exists fuel t errs st,
   parse_with fuel grammar_prog grammar_entry txt = ParseOk t errs st /\
   lossless txt t /\
   Forall (error_wf txt) errs /\
-  N.to_nat (nlex st) + N.to_nat (nstart st) <= grammar_K * (List.length (raw_lex txt) + 1).
+  (N.to_nat (nlex st) + N.to_nat (nstart st) <= grammar_K * (List.length (raw_lex txt) + 1))%nat.
 Proof. exact grammar_parse_spec. Qed.
 Print Assumptions C02_parse_spec.
 
@@ -62,11 +62,11 @@ Print Assumptions C02_terminates_checked.
     and for the chain of wrapper functions entered before it (strictly decreasing ranks); CostSound.cost_sound. *)
 Theorem C02_linear : forall fuel txt t errs st,
   parse_with fuel grammar_prog grammar_entry txt = ParseOk t errs st ->
-  N.to_nat (nlex st) + N.to_nat (nstart st) <= grammar_K * (List.length (raw_lex txt) + 1).
+  (N.to_nat (nlex st) + N.to_nat (nstart st) <= grammar_K * (List.length (raw_lex txt) + 1))%nat.
 Proof. exact grammar_linear. Qed.
 Check C02_linear : forall fuel txt t errs st,
   parse_with fuel grammar_prog grammar_entry txt = ParseOk t errs st ->
-  N.to_nat (nlex st) + N.to_nat (nstart st) <= grammar_K * (List.length (raw_lex txt) + 1).
+  (N.to_nat (nlex st) + N.to_nat (nstart st) <= grammar_K * (List.length (raw_lex txt) + 1))%nat.
 Print Assumptions C02_linear.
 Eval vm_compute in (N.of_nat grammar_K).
 
@@ -74,7 +74,7 @@ Eval vm_compute in (N.of_nat grammar_K).
 Theorem C02_linear_checked : forall (p : prog) (ce : cert) (entry : nat) (k : cconsts),
   chk_all p ce entry = true -> cchk p ce k = true ->
   forall fuel txt t errs st, parse_with fuel p entry txt = ParseOk t errs st ->
-  N.to_nat (nlex st) + N.to_nat (nstart st) <= lin_K k entry * (List.length (raw_lex txt) + 1).
+  (N.to_nat (nlex st) + N.to_nat (nstart st) <= lin_K k entry * (List.length (raw_lex txt) + 1))%nat.
 Proof. exact parse_linear. Qed.
 Print Assumptions C02_linear_checked.
 
@@ -84,7 +84,7 @@ Print Assumptions C02_linear_checked.
 Theorem C02_work_is_tree_size : forall (p : prog) (entry fuel : nat) txt t errs st,
   parse_with fuel p entry txt = ParseOk t errs st ->
   N.to_nat (nlex st) = S (List.length (leaves t)) /\
-  N.to_nat (nstart st) <= nnodes t + List.length (parents (bld st)).
+  (N.to_nat (nstart st) <= nnodes t + List.length (parents (bld st)))%nat.
 Proof. exact work_accounting. Qed.
 Print Assumptions C02_work_is_tree_size.
 
